@@ -633,8 +633,10 @@ def labelise(blocks):
 
     def add(act, snap):
         out.append((act, snap))
+    close_first, close_phase, prev_snap, cur_snap = None, {}, None, None
     for b in blocks:
         k, evs, end, snap = b["kind"], b["ev"], b["end"], b["snap"]
+        prev_snap, cur_snap = cur_snap, snap          # prev_snap: the client as the previous block left it
         how = b.get("how", "")
         if k == "env":
             add({"feed": f"AEnvFeed {b['n']}", "eof": "AEnvEof", "reset": "AEnvReset"}[b["what"]], snap)
@@ -782,12 +784,34 @@ def labelise(blocks):
         elif k == "close":
             if how.startswith("throw"):
                 raise Unlabelled("close task cancelled")
-            if _has(evs, "enter", "close"):
-                add(f"AClose {_cb_of(evs)}", snap)
-            elif _scb_resumed(evs):
-                add("ACloseCbDone", snap)
-            elif evs and evs[0][0] == "slept":
-                add("ACloseTimer", snap)
+            tid = b["tid"]
+            if close_first is None and _has(evs, "enter", "close"):
+                close_first = tid          # the first close() call to RUN is the one the labels AClose / ACloseCbDone / ACloseTimer follow
+            if tid == close_first:
+                if _has(evs, "enter", "close"):
+                    add(f"AClose {_cb_of(evs)}", snap)
+                elif _scb_resumed(evs):
+                    add("ACloseCbDone", snap)
+                elif evs and evs[0][0] == "slept":
+                    add("ACloseTimer", snap)
+                else:
+                    raise Unlabelled(f"close block {evs} {end}")
+            elif _has(evs, "enter", "close"):
+                # a further close() call: the state is CLOSED already, so no status callback; it closes the writer, cancels the
+                # receive task if that is not done (and sleeps), else the consumer (and sleeps), else returns
+                if _cb_of(evs) != "CbNone":
+                    raise Unlabelled("a further close() call invoked the status callback")
+                add("AClose2Entry", snap)
+                if end == "susp":
+                    close_phase[tid] = "rx" if (prev_snap or {}).get("rx") else "cons"
+            elif evs and evs[0][0] == "slept" and tid in close_phase:
+                add(f"AClose2Timer {'true' if close_phase[tid] == 'rx' else 'false'}", snap)
+                if end == "susp":
+                    if close_phase[tid] != "rx":
+                        raise Unlabelled("a further close() call slept a third time")
+                    close_phase[tid] = "cons"
+                else:
+                    del close_phase[tid]
             else:
                 raise Unlabelled(f"close block {evs} {end}")
         else:
@@ -1042,8 +1066,6 @@ async def _session(spec, tr, gw, obs, loop):
             raise Unlabelled("oracle-only session: close() called from inside a callback is not a schedule of the LTS")
         if spec.get("netmap"):
             raise Unlabelled("oracle-only session: the network-map seeding task is not part of the LTS")
-        if close_info.get("second"):
-            raise Unlabelled("oracle-only session: the LTS has one close() call")
         labels = labelise(tr.blocks)
         obs["labels"] = [[a, s] for a, s in labels]
         obs["unlabelled"] = None
